@@ -326,6 +326,8 @@ def obligations(prop):
         wrap(f"{prop}_G5_guards", lambda: generate_guards(prop), "source:guards")
     if prop == "C18":
         wrap("C18_G4_item_count", generate_item_count, "source:formula")
+    if prop == "C16":
+        wrap("C16_G6_tables", generate_arrays, "source:outcome-table")
     return out
 
 
@@ -415,3 +417,90 @@ def generate_item_count(repo=None):
         "Theorem G4_rho : forall S Ns R : Q, src_rho S Ns R == S / (Ns * R * (R - 1)).",
         "Proof. intros. unfold src_rho. reflexivity. Qed.", ""])
     return text, [{"site": "irr.compute_ts", "counts": ast.unparse(expr), "rho_s": ast.unparse(rho)}]
+
+
+# =========================================================================================================
+# G6: array constructions (the potential-outcome tables).  Expressions over 1-D arrays: a list variable, f(arr) for a
+# function parameter f (elementwise), arr + s / arr - s for a scalar parameter s, np.concatenate([a, b]),
+# np.column_stack([a, b]); local assignments are inlined.  The translated term must equal the model's table.
+def tr_arr(node, env, lists, funcs, scalars):
+    if isinstance(node, ast.Name):
+        if node.id in env:
+            return env[node.id]
+        if node.id in lists:
+            return node.id
+        raise Unsupported(f"free array name {node.id}")
+    if isinstance(node, ast.Call) and isinstance(node.func, ast.Name) and node.func.id in funcs and len(node.args) == 1 and not node.keywords:
+        return f"(map {funcs[node.func.id]} {tr_arr(node.args[0], env, lists, funcs, scalars)})"
+    if isinstance(node, ast.BinOp) and type(node.op) in (ast.Add, ast.Sub) and isinstance(node.right, ast.Name) and node.right.id in scalars:
+        op = "+" if isinstance(node.op, ast.Add) else "-"
+        return f"(map (fun v : Q => v {op} {scalars[node.right.id]}) {tr_arr(node.left, env, lists, funcs, scalars)})"
+    if (isinstance(node, ast.Call) and isinstance(node.func, ast.Attribute) and isinstance(node.func.value, ast.Name) and node.func.value.id == "np"
+            and node.func.attr in ("concatenate", "column_stack") and len(node.args) == 1 and isinstance(node.args[0], ast.List)
+            and len(node.args[0].elts) == 2 and not node.keywords):
+        a, b = (tr_arr(e, env, lists, funcs, scalars) for e in node.args[0].elts)
+        return f"({a} ++ {b})" if node.func.attr == "concatenate" else f"(combine {a} {b})"
+    raise Unsupported("array expression outside the grammar: " + ast.unparse(node)[:80])
+
+
+def inline_block(stmts, final_target, lists, funcs, scalars):
+    env = {}
+    for st in stmts:
+        if isinstance(st, ast.Expr) and isinstance(st.value, ast.Constant):
+            continue
+        if isinstance(st, ast.Assign) and len(st.targets) == 1 and isinstance(st.targets[0], ast.Name):
+            env[st.targets[0].id] = tr_arr(st.value, env, lists, funcs, scalars)
+            if st.targets[0].id == final_target:
+                return env[final_target]
+        elif isinstance(st, ast.Return) and final_target is None:
+            return tr_arr(st.value, env, lists, funcs, scalars)
+        else:
+            raise Unsupported("statement outside the grammar: " + ast.unparse(st)[:80])
+    raise Unsupported("target not reached")
+
+
+def generate_arrays(repo=None):
+    repo = repo or os.environ.get("VERIF_REPO", "/repo")
+    out = ["From Coq Require Import QArith List.", "Import ListNotations.", "Open Scope Q_scope.", ""]
+    detail = []
+    utils = ast.parse(open(os.path.join(repo, "permute", "utils.py")).read())
+    core = ast.parse(open(os.path.join(repo, "permute", "core.py")).read())
+    # potential_outcomes: the two asserts (inverse check both ways on tester), then the table
+    fn = find_function(utils, "potential_outcomes")
+    body = [s for s in fn.body if not (isinstance(s, ast.Expr) and isinstance(s.value, ast.Constant))]
+    asserts = [s for s in body if isinstance(s, ast.Assert)]
+    shapes = sorted(ast.unparse(a.test) for a in asserts)
+    if shapes != ["np.allclose(f(finverse(tester)), tester)", "np.allclose(finverse(f(tester)), tester)"]:
+        raise Unsupported(f"inverse check changed: {shapes}")
+    tester = [s for s in body if isinstance(s, ast.Assign) and ast.unparse(s.targets[0]) == "tester"]
+    if len(tester) != 1 or ast.unparse(tester[0].value) != "np.array(range(5)) + 1":
+        raise Unsupported("tester changed")
+    rest = [s for s in body if not isinstance(s, ast.Assert) and s is not tester[0]]
+    t = inline_block(rest, None, {"x", "y"}, {"f": "f", "finverse": "finv"}, {})
+    out += [f"Definition src_potential_outcomes (x y : list Q) (f finv : Q -> Q) : list (Q * Q) := {t}.",
+            "Theorem G6_potential_outcomes : forall x y f finv, src_potential_outcomes x y f finv = combine (x ++ map f y) (map finv x ++ y).",
+            "Proof. reflexivity. Qed.", ""]
+    detail.append({"site": "utils.potential_outcomes", "table": t})
+    # two_sample: exchangeable table
+    fn = find_function(core, "two_sample")
+    st = [s for s in fn.body if isinstance(s, ast.Assign) and ast.unparse(s.targets[0]) == "pot_out_all"]
+    if len(st) != 1:
+        raise Unsupported("two_sample: pot_out_all")
+    t = tr_arr(st[0].value, {}, {"x", "y"}, {}, {})
+    out += [f"Definition src_two_sample_table (x y : list Q) : list (Q * Q) := {t}.",
+            "Theorem G6_two_sample_table : forall x y, src_two_sample_table x y = combine (x ++ y) (x ++ y).", "Proof. reflexivity. Qed.", ""]
+    detail.append({"site": "core.two_sample", "table": t})
+    # two_sample_shift: the scalar branch
+    fn = find_function(core, "two_sample_shift")
+    branch = None
+    for n in fn.body:
+        if isinstance(n, ast.If) and "isinstance(shift, float)" in ast.unparse(n.test) and "isinstance(shift, int)" in ast.unparse(n.test):
+            branch = n
+    if branch is None:
+        raise Unsupported("two_sample_shift: scalar branch not found")
+    t = inline_block(branch.body, "pot_out_all", {"x", "y"}, {}, {"shift": "d"})
+    out += [f"Definition src_shift_table (x y : list Q) (d : Q) : list (Q * Q) := {t}.",
+            "Theorem G6_shift_table : forall x y d, src_shift_table x y d = combine (x ++ map (fun v => v + d) y) (map (fun v => v - d) x ++ y).",
+            "Proof. reflexivity. Qed.", ""]
+    detail.append({"site": "core.two_sample_shift", "table": t})
+    return "\n".join(out), detail
